@@ -86,6 +86,12 @@ var sharedPolicies = []string{"first", "last", "roundrobin", "random"}
 
 func genRegisterOp(t *rapid.T, s int, strict bool, profile string) Op {
 	m := genMatch(t)
+	if profile == "deterministic" && m == "wildcard" {
+		// which of several matching wildcard registrations serves a call (or is named by
+		// wamp.registration.match) is the router's free choice and may differ between the
+		// two runs of a differential check
+		m = "prefix"
+	}
 	op := Op{K: "register", S: s, Mode: m}
 	switch {
 	case pct(t, 6, "badreg"):
